@@ -93,3 +93,37 @@ CHECKS["C21"] = dict(
     assumptions=["peers are 32-byte addresses built to share exactly po leading bits with the base",
                  "the race detector reports a race only if both accesses happen in the run (60 update rounds against a free-running reader)"],
 )
+
+# ------------------------------------------------------------------------------------ C19
+_SHED_WRITES = ("put", "del", "bput", "bdel", "commit", "uput", "ubput", "uinc", "udec", "ubinc", "ubdec", "sput", "sbput",
+                "vput", "vbput", "vinc", "vdec", "vbinc", "vbdec")
+CHECKS["C19"] = dict(
+    modules=["shed"], level="model_checking", driver="sheddrv",
+    design_ref="5 (C19)",
+    technique="TLA+ model of shed (independent sorted maps, fields, vector, batch, reopen) checked by TLC; TLC-generated histories "
+              "(edges of the state graph + random walks) run on shed.DB over LevelDB; recorded trace judged by the TLA+ trace spec",
+    level_text="TLC exhausts the Shed model on a small universe and generates one history per (store state, operation) edge - every exported "
+               "Index method incl. Iterate with {Prefix, StartFrom, SkipStartFromItem, Reverse} x callback stop/error, First, Last, Count, "
+               "CountFrom, Fill, HasMulti, batches, Uint64Field, StringField, Uint64Vector, reopen - plus random walks over 3 indexes x 14 "
+               "keys whose bytes collide with the index/field prefix bytes; every result and a full projection are judged by ShedTrace.tla",
+    level_note="trusted: TLC, the driver's projection (Get of every universe key, full Iterate, Count, field reads), goleveldb. Empty "
+               "encoded keys, field names that are prefixes of each other and crashes (C14) are not generated.",
+    design=[dict(spec="MCShed.tla", cfg="MCShedIndex.cfg", cfg_thorough="MCShedIndex_thorough.cfg", workers=8, timeout=1200),
+            dict(spec="MCShed.tla", cfg="MCShedField.cfg", cfg_thorough="MCShedField_thorough.cfg", workers=8, timeout=1200)],
+    gen=dict(
+        quick=[dict(mode="edges", spec="ShedGen.tla", cfg="ShedGenEdgesQuick.cfg", depth=6, max=2500, name="index-edges"),
+               dict(mode="sim", spec="ShedGen.tla", cfg="ShedGenSim.cfg", depth=20, num=50, max=1500, name="walks")],
+        thorough=[dict(mode="edges", spec="ShedGen.tla", cfg="ShedGenEdges.cfg", depth=8, max=60000, timeout=1500, name="index-edges"),
+                  dict(mode="edges", spec="ShedGen.tla", cfg="ShedGenFieldEdges.cfg", depth=5, max=15000, timeout=1500, name="field-edges"),
+                  dict(mode="sim", spec="ShedGen.tla", cfg="ShedGenSim.cfg", depth=25, num=600, max=20000, name="walks")]),
+    judge=dict(spec="ShedTrace.tla", cfg="ShedTrace.cfg"),
+    corrupt=corrupt_field("get", "found", lambda e: not e["found"]),
+    nontrivial=lambda s: any(o["op"] in _SHED_WRITES for o in s["ops"]) and any(o["op"] not in _SHED_WRITES for o in s["ops"]),
+    rule="TLC-generated histories over 3 indexes (variable-length, 1-byte and 2-byte keys over {00,01,02,03,04,ff}), a uint64 field, a string "
+         "field, a 2-element vector, one write batch and reopen: edges mode = one shortest history per (store state, operation) pair of the "
+         "state graph of a small universe; walks = -simulate over the large universe with arguments drawn per step; distinct = distinct "
+         "operation sequence; non-trivial = contains a write and a read",
+    exhaustive=dict(quick=False, thorough=False),
+    assumptions=["item values are one byte; keys are 1-2 bytes", "a history that reopens runs on a temporary directory, the others in memory",
+                 "one write batch at a time; a committed or abandoned batch is replaced by a fresh one"],
+)
